@@ -217,7 +217,7 @@ func verifC08_alloc() {
 	client := vParam("client", 1) == 1
 	vInstallRand()
 	declared := vI64("declared")
-	vAssume(declared >= int64(vParam("minDeclared", 70000)))
+	vAssume(declared >= int64(vParam("minDeclared", 1<<20)))
 	present := vChoose("present", vParam("maxPresent", 5)+1)
 	h := vRefHeader{fin: true, opcode: 2, masked: !client, length: uint64(declared)}
 	if h.masked {
@@ -232,16 +232,24 @@ func verifC08_alloc() {
 	c := vNewConn(t, client, nil, 64, 64)
 	c.SetReadLimit(-1)
 	vGhostAllocReset()
-	_, r, err := c.Reader(vBG)
-	vAssert(err == nil, "C08.alloc.reader")
-	if err != nil {
-		return
+	vGhostAllocGuard("C08.alloc.bounded", vParam("allocBound", 65536))
+	var got []byte
+	var rerr error
+	if vChoose("api", 2) == 0 {
+		_, r, err := c.Reader(vBG)
+		vAssert(err == nil, "C08.alloc.reader")
+		if err != nil {
+			return
+		}
+		got, rerr = vReadAll(r, 8)
+	} else {
+		_, got, rerr = c.Read(vBG)
+		vReach("C08.alloc.conn-read")
 	}
-	got, rerr := vReadAll(r, 8)
 	vReach("C08.alloc.read")
 	vAssert(rerr != nil, "C08.alloc.truncated-fails")
 	vAssert(vAnd(len(got) <= present, vIsPrefix(got, data)), "C08.alloc.delivered-at-most-present")
-	vAssert(vGhostAllocMax() <= vParam("allocBound", 1024), "C08.alloc.bounded")
+	vAssert(vGhostAllocMax() <= vParam("allocBound", 65536), "C08.alloc.bounded")
 	c.CloseNow()
 	vObserve("alloc", declared, got)
 }
